@@ -29,6 +29,9 @@ pub enum RawOp {
     Create(u8),
     Write(u8, usize),
     WriteAt(u8, Off, usize),
+    /// batch_write_each of k 4-byte slots, 8 bytes apart, starting at the offset (all inside
+    /// the current length; k = 1 is a batch whose items share one offset range)
+    BatchWrite(u8, Off, u8),
     /// write_at one byte past the end: must be refused.
     WriteBeyond(u8),
     Truncate(u8, Off),
@@ -60,6 +63,7 @@ impl RawOp {
             RawOp::Create(_) => "create",
             RawOp::Write(..) => "write",
             RawOp::WriteAt(..) => "write_at",
+            RawOp::BatchWrite(..) => "batch_write",
             RawOp::WriteBeyond(_) => "write_beyond",
             RawOp::Truncate(..) => "truncate",
             RawOp::TruncateBeyond(_) => "truncate_beyond",
@@ -395,6 +399,13 @@ impl RawSys {
                 let d = data(*n, at, *sz, self.generation[*n as usize]);
                 self.region(*n).unwrap().write_at(&d, at).map_err(e)
             }
+            RawOp::BatchWrite(n, o, k) => {
+                let at = self.off(*n, *o);
+                let g = self.generation[*n as usize];
+                let items: Vec<(usize, Vec<u8>)> = (0..*k as usize).map(|i| (at + 8 * i, data(*n, at + 8 * i, 4, g))).collect();
+                self.region(*n).unwrap().batch_write_each(items.into_iter(), 4, |v, dst| dst.copy_from_slice(v));
+                Ok(())
+            }
             RawOp::WriteBeyond(n) => {
                 let at = self.off(*n, Off::End) + 1;
                 self.region(*n).unwrap().write_at(&[0xEE; 3], at).map_err(e)
@@ -488,6 +499,17 @@ impl RawSys {
                 self.generation[*n as usize] ^= 1;
                 Ok(())
             }
+            RawOp::BatchWrite(n, o, k) => {
+                let at = self.off(*n, *o);
+                let g = self.generation[*n as usize];
+                let m = self.model.get_mut(n).unwrap();
+                for i in 0..*k as usize {
+                    let d = data(*n, at + 8 * i, 4, g);
+                    m.bytes[at + 8 * i..at + 8 * i + 4].copy_from_slice(&d);
+                }
+                self.generation[*n as usize] ^= 1;
+                Ok(())
+            }
             RawOp::WriteAt(n, o, sz) => {
                 let at = self.off(*n, *o);
                 let g = self.generation[*n as usize];
@@ -574,6 +596,7 @@ impl RawSys {
         match op {
             RawOp::Write(n, _)
             | RawOp::WriteAt(n, ..)
+            | RawOp::BatchWrite(n, ..)
             | RawOp::Truncate(n, _)
             | RawOp::TruncateWrite(n, ..) => Some(*n),
             RawOp::Rename(_, m) => Some(*m),
@@ -643,6 +666,19 @@ impl Sys for RawSys {
                 for &o in &offs {
                     for &s in &cfg.at_sizes {
                         v.push(RawOp::WriteAt(n, o, s));
+                    }
+                }
+            }
+            if cfg.has("batch_write") {
+                for o in [Off::Zero, Off::Mid] {
+                    let at = match o {
+                        Off::Zero => 0,
+                        _ => len / 2,
+                    };
+                    for k in [1u8, 2] {
+                        if (o == Off::Zero || len >= 2) && at + 8 * (k as usize - 1) + 4 <= len {
+                            v.push(RawOp::BatchWrite(n, o, k));
+                        }
                     }
                 }
             }
